@@ -61,7 +61,7 @@ extern crate alloc;
 use alloc::{borrow::ToOwned, format, string::String};
 use core::{
     cmp::Ordering,
-    fmt,
+    fmt::{self, Write},
     ops::{Add, Div, Mul, Sub},
 };
 
@@ -307,7 +307,40 @@ pub trait Quantity: Copy + Sized + Mul<AmountT> {
             } else {
                 tmp = format!("{} {}", abs_amnt, self.unit());
             }
-            form.pad_integral(amnt_non_neg, "", &tmp)
+            // `Formatter::pad_integral` measures the text in bytes, which
+            // yields a too short result for non-ASCII unit symbols, so the
+            // padding is done here, counting chars.
+            let sign = if !amnt_non_neg {
+                "-"
+            } else if form.sign_plus() {
+                "+"
+            } else {
+                ""
+            };
+            let n_chars = sign.len() + tmp.chars().count();
+            let n_pad = form.width().map_or(0, |w| w.saturating_sub(n_chars));
+            if form.sign_aware_zero_pad() {
+                form.write_str(sign)?;
+                for _ in 0..n_pad {
+                    form.write_char('0')?;
+                }
+                return form.write_str(&tmp);
+            }
+            let (n_pre, n_post) = match form.align() {
+                Some(fmt::Alignment::Left) => (0, n_pad),
+                Some(fmt::Alignment::Center) => (n_pad / 2, n_pad - n_pad / 2),
+                _ => (n_pad, 0),
+            };
+            let fill = form.fill();
+            for _ in 0..n_pre {
+                form.write_char(fill)?;
+            }
+            form.write_str(sign)?;
+            form.write_str(&tmp)?;
+            for _ in 0..n_post {
+                form.write_char(fill)?;
+            }
+            Ok(())
         }
     }
 }
